@@ -394,6 +394,10 @@ pub fn for_each_program(thorough: bool, family_filter: &(dyn Fn(&str) -> bool + 
         };
         let accs = crate::pool::par_items(bases, 16, |_| Stats::new(), |acc, i, (fam, p)| {
             let head = fam.split(':').next().unwrap_or(fam);
+            // the loop / list / blob bases have few binders and long-running variants: thorough tier only
+            if !thorough && !["enums", "closures", "value-blocks", "recursion", "globals", "late-globals"].contains(&head) {
+                return;
+            }
             for (k, mut q) in shadow_variants(p).into_iter().enumerate() {
                 handler(acc, &format!("shadowed:{}", head), &mut q, (i + k) % 7001 == 0);
                 acc.count("family:shadowed", 1);
